@@ -277,7 +277,8 @@ def project_item(it, keep):
             # dedicated form `Type| …`
             if re.fullmatch(r"[A-Za-z_][\w:<>', ]*", head) and head in it.meta.get("cparts", []) and head != keep:
                 return False
-        if a.tag and a.tag[0] == "ghost" and a.args and a.args.strip() in it.meta.get("cparts", []) and a.args.strip() != keep:
+        # bare dedication: `#[ghost(Type)]`, `#[parent(Type)]` (a single type path as the whole argument)
+        if a.tag and a.tag[0] in ("ghost", "parent") and a.args and a.args.strip() in it.meta.get("cparts", []) and a.args.strip() != keep:
             return False
         return True
     it2.attrs = [a for a in it2.attrs if relevant(a)]
@@ -294,7 +295,7 @@ def oracle_c06(cases, results, seed, thorough):
     fails = []
     items = []
     for k, prof in enumerate(["multi-counterpart", "tree", "enum", "parents", "repeat"]):
-        items += gen.gen_items(prof, seed * 1000 + 900 + k, 200 if not thorough else 2500)
+        items += gen.gen_items(prof, seed * 1000 + 900 + k, 600 if not thorough else 4000)
     items = [it for it in items if len(it.meta.get("cparts", [])) >= 2 and not any(c.startswith("(") for c in it.meta["cparts"])]
     full = [(it.meta["id"], gen.render(it)) for it in items]
     a = expand("s1", full)
@@ -788,7 +789,24 @@ def oracle_c05_order(seed, thorough, profiles=("multi-counterpart", "enum-member
                     if (da is None) != (db is None):
                         cands.append((hi, x, y))
         if not cands:
-            continue
+            # no such neighbours as generated: write a pair onto one member (mapping instructions of one name, a default
+            # one and one dedicated to a counterpart, different arguments), at a random position among its instructions
+            members = [(hi, h) for hi, h in enumerate(hosts) if isinstance(h, gen.Field)]
+            cs = [c for c in it.meta.get("cparts", []) if not c.startswith("(")]
+            if not members or not cs or r.random() < 0.3:
+                continue
+            it = copy.deepcopy(it)
+            hosts = [it] + list(it.fields) + list(it.variants) + [f for v in it.variants for f in v.fields]
+            hi, _ = r.choice(members)
+            h = hosts[hi]
+            nm = r.choice(["into", "map", "from", "owned_into", "ref_into", "map_owned", "map_ref", "from_owned", "try_into", "try_map"])
+            c = r.choice(cs)
+            pair = [gen.Instr(nm, r.choice(["zq_a", "zq_a, ~.clone()", "{ zq_default(&@) }"]), tag=("mmap", None)),
+                    gen.Instr(nm, c + "| " + r.choice(["zq_b", "zq_b, ~ + 1", "{ zq_dedicated(&@) }"]), tag=("mmap", c))]
+            r.shuffle(pair)
+            x = r.randrange(len(h.attrs) + 1)
+            h.attrs[x:x] = pair
+            cands = [(hi, x, x + 1)]
         hi, x, y = r.choice(cands)
         it2 = copy.deepcopy(it)
         hosts2 = [it2] + list(it2.fields) + list(it2.variants) + [f for v in it2.variants for f in v.fields]
@@ -842,7 +860,15 @@ def oracle_c05_shadowed(seed, thorough):
         f, a = r.choice(cands)
         f2 = members2[members.index(f)]
         ded = (a.args.split("|", 1)[0] + "| ") if (a.args and a.tag[1]) else ""
-        f2.attrs.insert(r.randrange(len(f2.attrs) + 1), gen.Instr(gen.UNTRY[a.name], ded + r.choice(["zz_shadowed", "zz_shadowed, ~.clone()", "{ shadowed() }"]), tag=("mmap", a.tag[1])))
+        tagc = a.tag[1]
+        if not ded and r.random() < 0.5:
+            # the fallible instruction is a default one, so it serves every counterpart: an infallible twin *dedicated* to one of
+            # them is on a later step of the lookup all the same (exact fallibility first, dedication second within a step)
+            cs = [c for c in it.meta.get("cparts", []) if not c.startswith("(")]
+            if cs:
+                tagc = r.choice(cs)
+                ded = tagc + "| "
+        f2.attrs.insert(r.randrange(len(f2.attrs) + 1), gen.Instr(gen.UNTRY[a.name], ded + r.choice(["zz_shadowed", "zz_shadowed, ~.clone()", "{ shadowed() }"]), tag=("mmap", tagc)))
         pairs.append((it.meta["id"], gen.render(it), gen.render(it2)))
     a = expand("s1", [(i, s) for i, s, _ in pairs])
     b = expand("s1", [(i, s2) for i, _, s2 in pairs])
@@ -1158,6 +1184,38 @@ def write_out_members(members):
     return out
 
 
+def write_out_enum_fields(variants):
+    """documented meaning of member-level repeat on the payload members of an enum's variants: a plain repeat ends with its
+    variant, a `repeat(permeate())` one is carried on over the following variants until `stop_repeat`"""
+    out = []
+    active = None  # (instructions to copy, permeating)
+    for v in variants:
+        vo = []
+        for m in v.fields:
+            names = [a.name for a in m.attrs]
+            own = [a for a in m.attrs if a.name not in ("repeat", "skip_repeat", "stop_repeat")]
+            if "stop_repeat" in names:
+                active = None
+            if "repeat" in names:
+                rep = next(a for a in m.attrs if a.name == "repeat")
+                cats = [c.strip() for c in (rep.args or "").split(",") if c.strip()]
+                perm = any(c.startswith("permeate") for c in cats)
+                cats = [c for c in cats if not c.startswith("permeate")]
+                if active is not None and "stop_repeat" not in names:
+                    return None  # unterminated: rejected by the derive
+                cats = cats or ["map", "child", "parent", "ghost", "type_hint"]
+                active = ([a for a in own if category_of(a) in cats], perm)
+                vo.append(own)
+            elif active is not None and "skip_repeat" not in names:
+                vo.append(own + copy.deepcopy(active[0]))
+            else:
+                vo.append(own)
+        if active is not None and not active[1]:
+            active = None
+        out.append(vo)
+    return out
+
+
 TRAIT_KINDS = ["vars", "update", "quick_return", "default_case"]
 
 
@@ -1232,6 +1290,19 @@ def oracle_c14_members(cases, seed, thorough):
         if it.kind == "enum":
             # variant-level repeat: the variants are the members; payload members must not take part
             if not any(a.name in REP for v in it.variants for a in v.attrs):
+                # no variant-level repeat: the payload members' own repeat instructions (plain and permeating)
+                if not any(a.name in REP for v in it.variants for f in v.fields for a in f.attrs):
+                    continue
+                if any(a.name == "as_type" for v in it.variants for f in v.fields for a in f.attrs):
+                    continue
+                w = write_out_enum_fields(it.variants)
+                if w is None:
+                    continue
+                it2 = copy.deepcopy(it)
+                for v, vo in zip(it2.variants, w):
+                    for f, attrs in zip(v.fields, vo):
+                        f.attrs = attrs
+                pairs.append((it.meta["id"], gen.render(it), gen.render(it2)))
                 continue
             if any(a.name in REP or a.name == "as_type" for v in it.variants for f in v.fields for a in f.attrs):
                 continue
@@ -1342,6 +1413,11 @@ def run_oracle(prop, cases, results, seed, thorough, disagreements):
                 fo, no = oracle_c05_order(seed + 9, thorough, profiles=("enum-prim",))
                 out["failures"] += fo
                 out["evaluated"] += no
+            if prop == "C03":
+                out["name"] += " + metamorphic: swapping a default #[child] / #[parent] / mapping instruction with a dedicated neighbour of the same name leaves the real expansion unchanged"
+                fo, no = oracle_c05_order(seed + 3, thorough, profiles=("tree", "parents"))
+                out["failures"] += fo
+                out["evaluated"] += no
             if prop == "C02":
                 out["name"] += " + metamorphic: swapping a default with a dedicated variant / payload instruction of the same name leaves the real expansion unchanged"
                 fo, no = oracle_c05_order(seed + 2, thorough, profiles=("enum-members", "enum", "multi-counterpart"))
@@ -1411,7 +1487,12 @@ def run_oracle(prop, cases, results, seed, thorough, disagreements):
             out["name"] = "owned vs by-reference bodies of symmetric mappings on the real output + runtime tie (all six flavours of one mapping on equal inputs)"
             f7, n7 = oracle_c07(cases, seed, thorough)
             out["failures"] += f7
-            out["evaluated"] = n7 + out["runtime_tie"]["conversions_compared"]
+            # every flavour picks among a member's instructions by the same rule (dedicated before default, whatever the written
+            # order): swapping a default with a dedicated neighbour must leave all six flavours unchanged
+            fo, no = oracle_c05_order(seed + 7, thorough, profiles=("member-instrs", "multi-counterpart", "struct-flat"))
+            out["failures"] += fo
+            out["evaluated"] = n7 + no + out["runtime_tie"]["conversions_compared"]
+            out["name"] += " + metamorphic: default / dedicated neighbour swap"
         else:
             out["name"] = "none beyond the correspondence (a broken tie is reported without a failing input)"
     except Exception as e:  # an oracle that cannot run must not hide a result
